@@ -790,3 +790,68 @@ def check_release_refill(chk, unit, rule="L4"):
                           "table's readers use it unconditionally" % (f.name, X.render(a)[:40], (" (it stores into %s instead)" % X.render(others[0]["ch"][0])[:40]) if others else "", a.get("n")),
                    proof="a store to the same entry follows the release on every path")
     return n
+
+
+def check_push_initialises(chk, prog, unit, rule="P6"):
+    """A function that takes a new entry of one of the parser's tables into use (it is a growth site) stores every field of
+    that entry with a plain assignment: an entry reuses the memory of an earlier one (or of realloc), so a field that is only
+    OR-ed / AND-ed into, or not written at all, carries a stale value over (a file pushed with the skip-to-end flag of the
+    file that used the slot before)."""
+    n = 0
+    for f, idx, cnt, fac, node in growth_sites(unit):
+        tab = None
+        for c in X.calls_in(f.body):
+            if X.callee_name(c) in ("realloc", "spifmem_realloc"):
+                for a in c["ch"][1:]:
+                    for y in walk(a):
+                        g_ = glob_ref(y)
+                        if g_ is not None and g_.get("tp") and g_["n"] not in (idx["n"], cnt["n"]):
+                            tab = g_
+        if tab is None:
+            continue
+        m = re.search(r"struct (\w+) \*", (tab.get("tc") or "") + " " + (tab.get("t") or ""))
+        rec = prog.records.get(m.group(1)) if m else None
+        if rec is None:
+            # typedef'd anonymous struct: find the record through a member access on an element
+            for x in walk(f.body):
+                if x.get("k") == "member" and x.get("rec"):
+                    b = X.strip(x["ch"][0])
+                    while b is not None and b.get("k") in ("index", "un", "paren"):
+                        b = X.strip(b["ch"][0])
+                    if b is not None and glob_ref(b, tab["n"]) is not None:
+                        rec = prog.records.get(x["rec"])
+                        break
+        if rec is None:
+            continue
+        into = set()
+        for x in walk(f.body):
+            pairs = []
+            if x.get("k") == "assign" and x.get("op") == "=":
+                pairs.append((X.strip(x["ch"][0]), x["ch"][1]))
+            if x.get("k") == "decl":
+                for dcl in x.get("decls", ()):
+                    if dcl.get("init") is not None:
+                        pairs.append(({"k": "ref", "rk": "local", "d": dcl["d"]}, dcl["init"]))
+            for l_, r_ in pairs:
+                if l_.get("k") == "ref" and l_.get("rk") == "local" and any(glob_ref(y, tab["n"]) is not None for y in walk(r_)) and \
+                        not any(X.callee_name(c) in ("realloc", "spifmem_realloc") for c in X.calls_in(r_)):
+                    into.add(l_["d"])
+        plain = set()
+        for x in walk(f.body):
+            if x.get("k") == "assign" and x.get("op") == "=":
+                for l in ([X.strip(x["ch"][0])]):
+                    if l.get("k") == "member":
+                        b = X.strip(l["ch"][0])
+                        while b is not None and b.get("k") in ("index", "paren") or (b is not None and b.get("k") == "un" and b.get("op") == "*"):
+                            b = X.strip(b["ch"][0])
+                        if b is not None and (glob_ref(b, tab["n"]) is not None or (b.get("k") == "ref" and b.get("d") in into)):
+                            plain.add(l["n"])
+            if x.get("k") == "call" and X.callee_name(x) in ("memset", "__builtin_memset") and any(glob_ref(y, tab["n"]) is not None for y in walk(x["ch"][1])):
+                plain.update(fld["n"] for fld in rec["fields"])
+        n += 1
+        for fld in rec["fields"]:
+            chk.ob(rule, f.name, "entry-field-initialised:" + fld["n"], fld["n"] in plain, loc=f.loc(node),
+                   detail="%s takes a new %s entry into use without storing its field `%s` (a read-modify-write of it does not count): the "
+                          "field keeps what the previous user of that slot left there" % (f.name, tab["n"], fld["n"]),
+                   proof="plain store to the new entry's `%s`" % fld["n"])
+    return n
